@@ -166,11 +166,14 @@ package server
 //   Responder: the function type of the handshake finishers. A call of a Responder is the one place
 //   where the server itself writes to the peer; it is counted in the ghost counter "replies".
 // ---------------------------------------------------------------------------------------------
+// what makes a session usable (see multiplex.closable) is fixed at construction; nothing outside package multiplex writes it
+//@ define MUXKEEP heap(F_multiplex.Session.sb), heap(F_multiplex.Obfuscator.payloadCipher), heap(F_multiplex.SessionConfig.Valve), heap(F_multiplex.Session.maxStreamUnitWrite), heap(F_multiplex.SessionConfig.MsgOnWireSizeLimit), heap(F_multiplex.Session.streamSendBufferSize), heap(F_multiplex.Session.connReceiveBufferSize), heap(F_multiplex.switchboard.session), heap(F_multiplex.switchboard.valve)
 //@ func Responder
 //@   flag trusted
 //@   ensures counted: ghostget("replies", originalConn) == old(ghostget("replies", originalConn)) + 1
+//@   ensures connOnSuccess: err == nil ==> preparedConn != nil
 //@   modifies *
-//@   preserves State.Panel, State.AdminUID, State.ProxyBook, State.BypassUID
+//@   preserves State.Panel, State.AdminUID, State.ProxyBook, State.BypassUID, $MUXKEEP
 // session bookkeeping of a user (C15): assumed here not to touch connections or configuration
 
 // IsBypass only reads.
@@ -244,6 +247,7 @@ package server
 //@   atcall MakeSession requires sharedValve: arg1.(mux.SessionConfig).Valve == u.valve
 //@   atcall AuthoriseNewSession requires countIsCurrent: heldx(u.sessionsM) && ainfo.NumExistingSessions == mapLen(u.sessions)
 //@   ensures existingIsShared: existing ==> err == nil && sesh != nil && sesh == acq(u.sessions[sessionID])
+//@   ensures usableSession: err == nil ==> ghostcall("multiplex.closable", sesh)
 //@   ensures newIsRegistered: !existing && err == nil ==> sesh != nil && !acq(mapHas(u.sessions, sessionID) && u.sessions[sessionID] != nil) && u.sessions[sessionID] == sesh
 //@   ensures capRespected: !existing && err == nil && !u.bypass ==> acq(mapLen(u.sessions)) < uf("sessionsCap", strOfBytes(u.arrUID[:]))
 //@   ensures othersKept: forall k uint32 :: k != sessionID ==> mapHas(u.sessions, k) == acq(mapHas(u.sessions, k)) && u.sessions[k] == acq(u.sessions[k])
@@ -393,6 +397,26 @@ package server
 //@     assert(registered(panel, user))
 //@ }
 
+// serveSession (C01 routing, C17): every accepted stream is connected to the proxy-book entry of the
+// method the client authenticated for and relayed in both directions between exactly that stream and
+// exactly that connection; the function returns only after the session has been taken out of the
+// user's table under ITS id (a failed dial closes the session for the same reason).
+//@ func serveSession
+//@   requires sesh != nil && user != nil && user.panel != nil && sta != nil && sta.ProxyDialer != nil && sta.ProxyBook != nil && holdsNone()
+//@   atcall Dial requires bookEntryOfTheMethod: mapHas(sta.ProxyBook, ci.ProxyMethod) ==> proxyAddr == sta.ProxyBook[ci.ProxyMethod]
+//@   atcall CloseSession requires thisSession: arg0.(uint32) == ci.SessionId
+//@   ensures unregisteredBeforeLeaving: called("(*ActiveUser).CloseSession")
+//@   flag noframe
+//@   loop 0 invariant live: sesh != nil && user != nil && user.panel != nil && sta != nil && sta.ProxyDialer != nil && sta.ProxyBook != nil && holdsNone() && !called("(*ActiveUser).CloseSession")
+//@ func serveSession$1
+//@   requires localConn != nil && newStream != nil
+//@   atcall Copy requires streamToProxy: arg0 == localConn && arg1 == newStream
+//@   flag noframe
+//@ func serveSession$2
+//@   requires localConn != nil && newStream != nil
+//@   atcall Copy requires proxyToStream: arg1 == localConn && arg0 == newStream
+//@   flag noframe
+
 // InitState (C07): who is authorised without the database. With no admin UID and no bypass UID
 // configured, nobody is - in particular not the all-zero UID.
 //@ func parseRedirAddr
@@ -444,6 +468,7 @@ package server
 // the responder writes exactly that reply; the fake certificate is never empty (no zero-length record)
 //@ func (TLS).makeResponder$1
 //@   requires originalConn != nil && len(clientHelloSessionId) == 32
+//@   ensures connOnSuccess: err == nil ==> preparedConn != nil
 //@   atcall composeReply requires certNotEmpty: len(cert) >= 27 && len(cert) <= 68
 //@   # C06: what is sealed is THIS connection's session key, under the secret shared with THIS client, and
 //@   # the reply carries that ciphertext, the nonce it was sealed with and the client's own session id
